@@ -371,16 +371,16 @@ Fixpoint iter_pos_opt {A : Type} (p : positive) (f : A -> option A) (a : A) : op
 Definition iter_N_opt {A : Type} (n : N) (f : A -> option A) (a : A) : option A :=
   match n with N0 => Some a | Npos p => iter_pos_opt p f a end.
 
-Definition step_item (item : list N -> option (json * list N)) (st : list json * list N)
-  : option (list json * list N) :=
+Definition step_item {A : Type} (item : list N -> option (A * list N)) (st : list A * list N)
+  : option (list A * list N) :=
   let '(acc, bs) := st in
   match item bs with
   | Some (v, bs') => Some (v :: acc, bs')
   | None => None
   end.
 (** [item_list_to_json] after the length / the [Array] loop: [n] items in sequence *)
-Definition dec_items (item : list N -> option (json * list N)) (n : N) (bs : list N)
-  : option (list json * list N) :=
+Definition dec_items {A : Type} (item : list N -> option (A * list N)) (n : N) (bs : list N)
+  : option (list A * list N) :=
   match iter_N_opt n (step_item item) ([], bs) with
   | Some (acc, r) => Some (rev acc, r)
   | None => None
